@@ -11,7 +11,7 @@ import (
 
 func init() {
 	Register(&Scenario{
-		Prop: "C02", Run: scenarioC02, QuickRuns: 1600, ThoroughRuns: 40000, Level: "exploration",
+		Prop: "C02", Run: scenarioC02, QuickRuns: 9600, ThoroughRuns: 240000, Level: "exploration",
 		Rule:       "one run = one seeded world (start genome kind, option swarm, fitness landscape, executor, scheduler strategy) turned over for 1..N epochs with the partition/size/age/id oracle after every epoch; a case is an (epoch, population shape) pair, non-trivial when the population had >= 2 species or the apportionment took a rare path (stolen babies, delta coding, species extinction, new species founded)",
 		RealParts:  []string{"neat/genetics (population, species, both epoch executors, all operators)", "math/rand seeded from the tape", "real goroutines of the parallel executor, released one at a time by the tape-driven scheduler"},
 		StubParts:  []string{"fitness assignment (seeded landscape)", "choice of which reproduction goroutine runs next"},
